@@ -30,6 +30,7 @@ type ReplayRes struct {
 	Msg     string     `json:"msg"`
 	Traces  []TraceVal `json:"traces"`
 	Used    int        `json:"used"`
+	Failed  []string   `json:"failed"`
 }
 
 type Replayer struct {
@@ -64,6 +65,15 @@ func (r *Replayer) Build() error {
 	}
 	for k, v := range r.extraOv {
 		repl[k] = v
+	}
+	if cpath, csrc, err := collateOverlay(); err == nil {
+		pf := filepath.Join(r.workDir, "xtext_collate.go")
+		if err := os.WriteFile(pf, csrc, 0o644); err != nil {
+			return err
+		}
+		repl[cpath] = pf
+	} else {
+		return err
 	}
 	ovb, _ := json.Marshal(map[string]interface{}{"Replace": repl})
 	ovPath := filepath.Join(r.workDir, "overlay.json")
